@@ -50,8 +50,11 @@ func genC37d(rt *rapid.T) any {
 	return p
 }
 
-func execC37d(t *testing.T, plan any, r *simkit.Run) {
-	p := plan.(*C37dPlan)
+func execC37d(t *testing.T, plan any, r *simkit.Run) { runSched(t, plan.(*C37dPlan), r, false) }
+
+// runSched executes a scheduled concurrent run. forC23: the run serves C23 (confirmed transactions
+// leave the pool): a stuck schedule is then not this property's matter and is only counted.
+func runSched(t *testing.T, p *C37dPlan, r *simkit.Run, forC23 bool) {
 	Bubble(t, func() {
 		w := NewWorld(t, r, p.Tree.Cfg)
 		prods := w.ProduceTree(&p.Tree, Oracles{})
@@ -94,6 +97,10 @@ func execC37d(t *testing.T, plan any, r *simkit.Run) {
 			}
 		})
 		sched.Run(30*time.Second, 2000000)
+		if sched.Deadlock != "" && forC23 {
+			r.Count("contained.stuck_schedule", 1)
+			return
+		}
 		if sched.Deadlock != "" {
 			r.Violate("stuck-in-sequential-prefix", "", "%s", sched.Deadlock)
 			return
@@ -186,6 +193,10 @@ func execC37d(t *testing.T, plan any, r *simkit.Run) {
 		r.Count("simrt.steps", sched.Steps)
 		r.Count("simrt.calls", calls)
 		r.Tracef("concurrent phase: steps=%d calls=%d blocks=%d votes=%d", sched.Steps, calls, len(rest), len(votes))
+		if sched.Deadlock != "" && forC23 {
+			r.Count("contained.stuck_schedule", 1)
+			return
+		}
 		if sched.Deadlock != "" {
 			sites := strings.Join(sched.LockSites(), "|")
 			r.Violate("no-progress", sites, "a call never returned although every fault had stopped and two simulated hours passed: %s", sched.Deadlock)
